@@ -38,7 +38,7 @@ JudgeRtOne(c, P, k) ==
 Judge_sl_rt(c) ==
   LET P == Parse(c.schema) IN
   IF ~P.ok THEN << Cl("H.schema", "fail") >>
-  ELSE IF "perr" \in DOMAIN c THEN << Cl("C11.accept", "fail") >>     \* fastavro rejected a schema the spec accepts
+  ELSE IF "perr" \in DOMAIN c THEN << Cl("C11.accept", "fail"), Cl("C01.value", "fail"), Cl("C02.bytes", "fail") >>     \* fastavro rejected a schema the spec accepts
   ELSE IF \E k \in 1..Len(c.writes) : ~c.writes[k].ok
        THEN LET k == CHOOSE k \in 1..Len(c.writes) : ~c.writes[k].ok IN
             IF Conforms(P.t, c.data[k], P.st.names, OptsOf(c))
